@@ -391,6 +391,57 @@ def rule_i6(repo, col):
     col.floor("I6.sum_semirings", n, 5)
 
 
+def rule_i7(repo, col):
+    """an evaluator keeps nothing on the (shared, compiled) formula that depends on its own state: the formula outlives the evaluator and is evaluated again with other semirings
+    and weights, so a value computed from self.semiring / self.given_weights and stored as self.formula.<x> is served to the next evaluator in the wrong representation"""
+    from ..astutil import is_self_attr
+    from ..index import ClassInfo
+
+    base = repo.cls(EV, "Evaluator")
+    n_cls = 0
+    n_stores = 0
+    for c in sorted(repo.all_classes(), key=lambda c_: (c_.module.name, c_.name)):
+        if ".test" in c.module.name or not any(k is base for k in repo.mro(c) if isinstance(k, ClassInfo)):
+            continue
+        n_cls += 1
+        for f in c.methods.values():
+            local = {}
+            for st in walk_no_nested(f.node):
+                if isinstance(st, ast.Assign):
+                    for t_ in st.targets:
+                        if isinstance(t_, ast.Name):
+                            local.setdefault(t_.id, []).append(st.value)
+            for st in walk_no_nested(f.node):
+                tgt = None
+                val = None
+                if isinstance(st, ast.Assign):
+                    for t_ in st.targets:
+                        if isinstance(t_, ast.Attribute) and norm(t_.value) in ("self.formula", "self._formula"):
+                            tgt, val = t_, st.value
+                elif isinstance(st, ast.Expr) and isinstance(st.value, ast.Call) and dotted(st.value.func) == "setattr" and len(st.value.args) == 3 and norm(st.value.args[0]) in ("self.formula", "self._formula"):
+                    tgt, val = st.value.args[1], st.value.args[2]
+                if tgt is None:
+                    continue
+                n_stores += 1
+                deps, seen_, frontier = set(), set(), [val]
+                while frontier:
+                    e_ = frontier.pop()
+                    for x in ast.walk(e_):
+                        if is_self_attr(x) and x.attr not in ("formula", "_formula") and x.attr not in c.methods:
+                            deps.add(x.attr)
+                        elif isinstance(x, ast.Name) and x.id in local and x.id not in seen_:
+                            seen_.add(x.id)
+                            frontier.extend(local[x.id])
+                col.decide("I7", f.module, st, not deps, "%s stores on the formula only what the formula determines" % f.qualname,
+                           "%s stores %s on the compiled formula although the value depends on the evaluator's own %s: the formula is shared by all evaluators created from it, so an "
+                           "evaluation with another semiring reuses weights in the first semiring's internal representation (probabilities read as log-probabilities or the reverse) and "
+                           "returns wrong numbers or a spurious InconsistentEvidenceError" % (f.qualname, norm(tgt)[:40], ", ".join("self.%s" % d for d in sorted(deps))),
+                           construct="%s: evaluator state cached on the formula" % f.qualname, function=f.qualname)
+    col.ok("I7", base.module, base.node, "evaluator classes scanned for values cached on the shared formula: %d classes, %d stores" % (n_cls, n_stores),
+           construct="Evaluator hierarchy: cache-on-formula scan", function="Evaluator")
+    col.floor("I7.evaluator_classes", n_cls, 4)
+
+
 def run(repo, col):
     col.rule("I1", "evaluator classes provide the protocol used by Evaluatable.get_evaluator/evaluate")
     col.rule("I2", "registry entries are concrete and reachable by transformations")
@@ -404,3 +455,5 @@ def run(repo, col):
     rule_i5(repo, col)
     col.rule("I6", "sum semirings announce is_dsp()")
     rule_i6(repo, col)
+    col.rule("I7", "evaluators cache nothing semiring-dependent on the shared formula")
+    rule_i7(repo, col)
